@@ -366,3 +366,25 @@ def reaching_defs(fn: ast.AST, names):
     for k, v in uses.items():
         out[k] = {defs_by_id.get(d, d) for d in v}
     return out
+
+
+def enclosing_tests(parents, node, stop=None):
+    """Only the tests of *enclosing* if/while/ifexp constructs: [(test, polarity, owner node)]."""
+    out = []
+    cur = node
+    while cur in parents and cur is not stop:
+        p = parents[cur]
+        if isinstance(p, (ast.If, ast.While)):
+            if cur in p.body:
+                out.append((p.test, True, p))
+            elif cur in p.orelse and isinstance(p, ast.If):
+                out.append((p.test, False, p))
+        elif isinstance(p, ast.IfExp):
+            if cur is p.body:
+                out.append((p.test, True, p))
+            elif cur is p.orelse:
+                out.append((p.test, False, p))
+        if isinstance(p, (ast.FunctionDef, ast.AsyncFunctionDef, ast.Lambda)):
+            break
+        cur = p
+    return out
